@@ -373,7 +373,11 @@ fn cases(tier: Tier) -> Vec<Case> {
                 }
                 _ => {}
             }
-            for key in [stave_key(), custom.clone()] {
+            // custom checks: none / count and orders / orders alone (a lane with fewer or more chips must then fail
+            // the order check: a strict prefix or an extension of a configured order is not that order) / count alone
+            let orders_only = CfgKey { chip_count_ob: None, ..custom.clone() };
+            let count_only = CfgKey { chip_orders_ob: None, ..custom.clone() };
+            for key in [stave_key(), custom.clone(), orders_only, count_only] {
                 let f = FrameSpec { lanes: lanes.clone(), nodata_before: false, split: if variant == 0 { Some(5) } else { None } };
                 let mut want = expected_codes(&f, &none, &key);
                 if ob_expected_lane_count_codes(&f, layer) {
